@@ -137,10 +137,16 @@ fn tagged(mut inp: Value) -> Value {
 }
 
 pub fn run(ctx: &mut Ctx) {
+    let only: Option<Vec<usize>> = ctx.arg("--kinds").map(|p| p.split(',').map(|x| x.parse().unwrap()).collect());
     let n = if ctx.thorough { 60000 } else { 9000 };
     let (tmax, limmax, pmax) = if ctx.thorough { (24, 120, 10) } else { (10, 50, 6) };
     let wd = ctx.watchdog_ms;
     for i in 0..n {
+        if let Some(k) = &only {
+            if !k.contains(&(i % 6)) {
+                continue;
+            }
+        }
         let mut o = if i % 5 == 0 { gen::Opts::all(tmax) } else { gen::Opts::basic(tmax) };
         o.allow_never = false;
         let supply = gen_supply(&mut ctx.rng, pmax);
